@@ -246,6 +246,8 @@ func (e *Engine) sqlStatementsFrom(top *ssa.Function, virtual []ssa.Value, depth
 						case "Limit":
 							st.Limit = append(st.Limit, describe_(rest[0]))
 							st.LimitGd = append(st.LimitGd, describeGuards(b))
+						case "Distinct":
+							st.Suffix = append(st.Suffix, "DISTINCT")
 						case "Suffix", "Prefix":
 							st.Suffix = append(st.Suffix, describeStrings(rest[:1])...)
 						case "Set":
@@ -264,7 +266,7 @@ func (e *Engine) sqlStatementsFrom(top *ssa.Function, virtual []ssa.Value, depth
 							if f.Name() == "ToSql" {
 								st.addPgxRunners(in.(*ssa.Call))
 							}
-						case "PlaceholderFormat", "GroupBy", "Options", "Distinct", "Offset":
+						case "PlaceholderFormat", "GroupBy", "Options", "Offset":
 						default:
 							st.Exec = append(st.Exec, "method:"+f.Name())
 						}
@@ -489,6 +491,56 @@ func predOf(v ssa.Value, depth int) predDesc {
 		out.text = "raw(" + s + ")"
 		out.keys = columnsInExpr(s)
 		return out
+	}
+	// a predicate built by a helper of the module: the alternatives it can return, with the helper's
+	// parameters replaced by the caller's arguments in the value descriptions
+	if c, ok := v.(*ssa.Call); ok {
+		if f := c.Common().StaticCallee(); f != nil && len(f.Blocks) > 0 && f.Pkg != nil && strings.HasPrefix(f.Pkg.Pkg.Path(), modPath) && f.Signature.Results().Len() == 1 {
+			var alts []string
+			for _, rs := range returnSites(f) {
+				if len(rs.Results) != 1 {
+					continue
+				}
+				d := predOf(rs.Results[0], depth+1)
+				if d.op == "other" {
+					continue
+				}
+				for i, a := range c.Common().Args {
+					an := fmt.Sprintf("arg%d", i)
+					if f.Signature.Recv() != nil {
+						if i == 0 {
+							an = "recv"
+						} else {
+							an = fmt.Sprintf("arg%d", i-1)
+						}
+					}
+					ad := describe_(a)
+					d.text = replaceIdent(d.text, an, ad)
+					for k, vv := range d.vals {
+						d.vals[k] = replaceIdent(vv, an, ad)
+					}
+				}
+				alts = append(alts, d.text)
+				out.keys = append(out.keys, d.keys...)
+				for k, vv := range d.vals {
+					out.vals[k] = vv
+				}
+				if out.op == "" {
+					out.op = d.op
+				} else if out.op != d.op {
+					out.op = "alt"
+				}
+			}
+			if len(alts) > 0 {
+				alts = uniq(alts)
+				out.text = strings.Join(alts, " | ")
+				if len(alts) > 1 {
+					out.text = "alt(" + out.text + ")"
+				}
+				return out
+			}
+			out = predDesc{vals: map[string]string{}}
+		}
 	}
 	out.op = "other"
 	out.text = describe_(v)
